@@ -9,6 +9,7 @@ TIMEOUT_MS = int(os.environ.get('PYVC_TIMEOUT_MS', '120000'))
 
 FAST_RLIMIT = int(os.environ.get('PYVC_FAST_RLIMIT', '3000000'))
 MBQI_TIMEOUT_MS = int(os.environ.get('PYVC_MBQI_TIMEOUT_MS', '40000'))
+COVER_TIMEOUT_MS = int(os.environ.get('PYVC_COVER_TIMEOUT_MS', '15000'))      # vacuity (reachability) queries: 'unknown' is tolerated, only 'unsat' is an error
 EMATCH_RLIMIT = int(os.environ.get('PYVC_EMATCH_RLIMIT', '8000000'))
 
 
@@ -35,7 +36,7 @@ def _solve(i, rlimit=None):
             s.set('auto_config', False); s.set('mbqi', False); s.set('rlimit', min(rlimit, EMATCH_RLIMIT) if rlimit else RLIMIT)
         else:
             s.set('rlimit', rlimit or RLIMIT)
-        s.set('timeout', TIMEOUT_MS if attempt == 1 or not quant else MBQI_TIMEOUT_MS)
+        s.set('timeout', COVER_TIMEOUT_MS if vc.expect == 'sat' else (TIMEOUT_MS if attempt == 1 or not quant else MBQI_TIMEOUT_MS))
         # normalise arithmetic sub-terms (R - k - 1 vs R + -1*k - 1) so that equal index expressions are syntactically equal
         for h in hyps: s.add(z3.simplify(h, som=True))
         s.add(z3.simplify(z3.Not(vc.goal), som=True))
